@@ -309,6 +309,13 @@ func main() {
 		}
 	}
 	os.WriteFile(filepath.Join(*out, "cases_table.txt"), []byte(strings.Join(tabLines, "\n")+"\n"), 0o644)
+	var finLines []string
+	for _, it := range items {
+		if !it.bu.Dropped && it.stream == "main" {
+			finLines = append(finLines, coqFinalize(len(res.Cases)+len(tabLines)+len(finLines), it)...)
+		}
+	}
+	os.WriteFile(filepath.Join(*out, "cases_finalize.txt"), []byte(strings.Join(finLines, "\n")+"\n"), 0o644)
 	if err := res.Write(filepath.Join(*out, "result.json")); err != nil {
 		panic(err)
 	}
